@@ -514,8 +514,35 @@ func doBuilt(seed uint64, n int) {
 				okb = false
 				break
 			}
-			for _, s := range randSamples(r, r.Range(0, 6), r.Bool()) {
-				fr.AddFullSample(s)
+			// three ways of handing over the media data: full samples (one growing buffer), sample intervals (a list of
+			// data parts), and intervals followed by full samples (both representations in one mdat: the library
+			// then writes and counts the parts only - whatever it does, bytes written must be what Size() says)
+			smp := randSamples(r, r.Range(0, 6), r.Bool())
+			switch dataMode := r.Intn(4); {
+			case dataMode <= 1 || len(smp) < 2:
+				for _, s := range smp {
+					fr.AddFullSample(s)
+				}
+			default:
+				cut := len(smp)
+				if dataMode == 3 {
+					cut = r.Range(1, len(smp)-1)
+				}
+				iv := mp4.SampleInterval{FirstDecodeTime: smp[0].DecodeTime}
+				for _, s := range smp[:cut] {
+					iv.Samples = append(iv.Samples, s.Sample)
+					iv.Data = append(iv.Data, s.Data...)
+				}
+				if err := fr.AddSampleInterval(iv); err != nil {
+					okb = false
+				}
+				for _, s := range smp[cut:] {
+					fr.AddFullSample(s)
+				}
+				ws += fmt.Sprintf(" frag%d:interval(%d)+full(%d)", k, cut, len(smp)-cut)
+			}
+			if !okb {
+				break
 			}
 			seg.AddFragment(fr)
 			if k == 0 {
